@@ -95,20 +95,41 @@ static qaconf_option_t OPTS[] = {
     {"Listen", QAC_TAKE_INT, cb, 0, QAC_SECTION_ALL}, {"Flag", QAC_TAKE_BOOL, cb, 0, QAC_SECTION_ALL},
     {"Sec", QAC_TAKE_STR, cb, 2, QAC_SECTION_ALL}, {"Mix", QAC_TAKEALL | QAC_A1_BOOL | QAC_A2_INT | QAC_AA_FLOAT, cb, 0, QAC_SECTION_ALL},
     QAC_OPTION_END };
+/* the same table with every argument of "a" (the one name the enumerated alphabet can spell) declared boolean, integer, float: the
+ * type checks and the in-place normalisation of booleans then see every token the tokenizer can produce, empty ones included */
+static qaconf_option_t OPTS_B[] = {
+    {"a", QAC_TAKEALL | QAC_AA_BOOL, cb, 0, QAC_SECTION_ALL}, {"aa", QAC_TAKE_BOOL, cb, 1, QAC_SECTION_ALL},
+    {"Listen", QAC_TAKE_INT, cb, 0, QAC_SECTION_ALL}, {"Flag", QAC_TAKE_BOOL, cb, 3, QAC_SECTION_ALL},
+    {"Sec", QAC_TAKE_STR, cb, 2, QAC_SECTION_ALL}, {"Mix", QAC_TAKEALL | QAC_A1_BOOL | QAC_A2_INT | QAC_AA_FLOAT, cb, 4, QAC_SECTION_ALL},
+    QAC_OPTION_END };
+static qaconf_option_t OPTS_N[] = {
+    {"a", QAC_TAKEALL | QAC_A1_INT | QAC_AA_FLOAT, cb, 0, QAC_SECTION_ALL}, {"aa", QAC_TAKE_FLOAT, cb, 1, QAC_SECTION_ALL},
+    {"Listen", QAC_TAKE_INT, cb, 5, QAC_SECTION_ALL}, {"Flag", QAC_TAKE_BOOL, cb, 0, QAC_SECTION_ALL},
+    {"Sec", QAC_TAKE_STR, cb, 2, QAC_SECTION_ALL}, {"Mix", QAC_TAKEALL | QAC_A1_BOOL | QAC_A2_INT | QAC_AA_FLOAT, cb, 0, QAC_SECTION_ALL},
+    QAC_OPTION_END };
+static qaconf_option_t *TABLE = OPTS;
+static void run_aconf1(const unsigned char *in, size_t n, const char *scratch, int flags);
 static void run_aconf(const unsigned char *in, size_t n, const char *scratch, int flags) {
+    TABLE = OPTS; run_aconf1(in, n, scratch, flags);
+    /* one record per input (restarts count lines): the typed tables run for their memory safety and termination only */
+    TABLE = OPTS_B; run_aconf1(in, n, scratch, flags);
+    TABLE = OPTS_N; run_aconf1(in, n, scratch, flags);
+    TABLE = OPTS;
+}
+static void run_aconf1(const unsigned char *in, size_t n, const char *scratch, int flags) {
     FILE *f = fopen(scratch, "wb"); if (!f) _exit(2);
     fwrite(in, 1, n, f); fclose(f);
     vh_where = "aconf"; vh_watchdog(8);
     qaconf_t *c = qaconf();
     long r = -9;
     if (c) {
-        c->addoptions(c, OPTS);
+        c->addoptions(c, TABLE);
         r = c->parse(c, scratch, (uint8_t) flags);
         (void) c->errmsg(c);
         c->free(c);
     }
     alarm(0);
-    rec("aconf", in, n, r);
+    if (TABLE == OPTS) rec("aconf", in, n, r);
 }
 static const unsigned char A_INI[8] = {'$', '{', '}', 'a', '=', '\n', '[', ']'};
 static const unsigned char A_ACONF[8] = {'"', '\'', '\\', ' ', 'a', '\n', '<', '>'};
@@ -135,7 +156,8 @@ static size_t gen_ini(unsigned char *x, size_t cap) {
 }
 static size_t gen_aconf(unsigned char *x, size_t cap) {
     static const char *frag[] = {"a b c\n", "<Sec x>\n", "</Sec>\n", "a \"q w\" 'e r'\n", "a \"unterminated\n", "a 'x\\\n", "a \"x\\", "Flag on\n", "Flag maybe\n", "Listen 12\n",
-                                 "Listen x\n", "Mix yes 3 1.5 2.5\n", "# comment\n", "<Sec>\n", "</Other>\n", "<Sec a b>\n", "   \t \n", "\\\n", "a \\\n b\n", "<", ">", "\"", "'", "aa v\n", "unknown 1\n"};
+                                 "Listen x\n", "Mix yes 3 1.5 2.5\n", "# comment\n", "<Sec>\n", "</Other>\n", "<Sec a b>\n", "   \t \n", "\\\n", "a \\\n b\n", "<", ">", "\"", "'", "aa v\n", "unknown 1\n",
+                                 "<Flag  >\n", "<Flag \t>\n", "<Flag on >\n", "<Flag \"off\" \t >\n", "<Mix  >\n", "<Mix yes  >\n", "Flag  \n", "<Listen  >\n", "<Listen 5 >\n", "Flag \"\"\n", "<Flag \"\">\n"};
     size_t n = 0; int parts = 1 + (int) (vh_rand() % 12);
     for (int i = 0; i < parts; i++) {
         const char *f = frag[vh_rand() % (sizeof frag / sizeof *frag)];
